@@ -49,6 +49,9 @@ def shards(tier, seed):
                 continue
             for wi in range(len(WRITE_CFG)):
                 sh.append((tier, kind, path, wi))
+    for kind in ("switch", "switch-oneofmany"):
+        for wi in range(len(WRITE_CFG)):
+            sh.append((tier, kind, "selected", wi))  # driver-side assignment through selected_values
     return sh
 
 
@@ -63,13 +66,15 @@ def peek(el):
     return v
 
 
-def execute(kind, path, wcfg, ccfg, rcfg, both, seq, switch_rule="AnyOfMany", inherited=False, disabled=False):
+def execute(kind, path, wcfg, ccfg, rcfg, both, seq, switch_rule="AnyOfMany", inherited=False, disabled=False, runtime=False):
     """returns observation dict; seq = tuple of 'v1' | 'v2' | 'same'"""
     import indi.message as M
     from indi.device import values as DV
     from indi.device.events import Change, Read, Write, on
     from indi.message import one_parts
     from indi.routing import Client, Router
+
+    import asyncio
 
     from mc.core.vloop import VLoop
     from mc.gen import drivers as D
@@ -164,8 +169,38 @@ def execute(kind, path, wcfg, ccfg, rcfg, both, seq, switch_rule="AnyOfMany", in
             return methods
 
         # inherited: the @on handlers (and the group) are declared in a base class, the device is an instance of a subclass
-        cls, defs = D.build_class(spec, handlers=handlers, handlers_level=0 if inherited else None)
-        dev = cls(router=router)
+        if runtime:
+            # the same handlers subscribed at RUN TIME with attach_event_handler(), as closures nobody else keeps a
+            # reference to; plus one handler per event kind that is attached and detached again (never to be invoked)
+            import gc
+
+            cls, defs = D.build_class(spec)
+            dev = cls(router=router)
+
+            def subscribe():
+                for name, meth in handlers(defs).items():
+                    for att in meth.event_handler_attachments:
+                        if asyncio.iscoroutinefunction(meth):
+
+                            async def f(event, meth=meth):
+                                return await meth(None, event)
+
+                        else:
+
+                            def f(event, meth=meth):
+                                return meth(None, event)
+
+                        att.src.attach_event_handler(att.event_type, f)
+                ea = defs["g"].vectors["v"].elements["a"]
+                for evt in (Write, Change, Read):
+                    uid = ea.attach_event_handler(evt, lambda event, evt=evt: log.append(("DETACHED", 0, "plain", event.element.name, None, None, len(published))))
+                    ea.detach_event_handler(uid)
+
+            subscribe()
+            gc.collect()
+        else:
+            cls, defs = D.build_class(spec, handlers=handlers, handlers_level=0 if inherited else None)
+            dev = cls(router=router)
         el = dev.g.v.a
         for step in seq:
             cur = peek(el)
@@ -194,6 +229,10 @@ def execute(kind, path, wcfg, ccfg, rcfg, both, seq, switch_rule="AnyOfMany", in
                         ch = one_parts.OneBLOB(name="A", size=str(len(raw)), format=want[1], value=base64.b64encode(raw).decode())
                         msg = M.NewBLOBVector(device="DEV", name="V", children=[ch])
                     router.process_message(msg, sender=client)
+                elif path == "selected":
+                    # driver-side assignment through the vector: the switches to be On, named
+                    others = [n for n, e_ in (("B", dev.g.v.b),) if e_._value == "On"]
+                    dev.g.v.selected_values = others + (["A"] if want == "On" else [])
                 elif path == "set_value":
                     el.set_value(mkval(want))
                 else:
@@ -245,18 +284,20 @@ def judge(kind, path, wcfg, ccfg, rcfg, both, seq, obs, disabled=False):
     fails = []
     default, v1, v2, refresh = values_for(kind)
     refreshing = any(style == "plain" and refr for style, refr in rcfg)
-    d = "kind=%s,path=%s%s" % (kind, path, ",nested-assignment" if any(st == "plain-nested" for st, _ in wcfg) and path != "assign" else "")
+    d = "kind=%s,path=%s%s" % (kind, path, ",nested-assignment" if any(st == "plain-nested" for st, _ in wcfg) and path not in ("assign", "selected") else "")
     for op in obs["ops"]:
         if op["exc"] is not None:
             from mc import lib
 
             fails.append(("raises", d + "," + lib.exc_site(op["exc"]), "%r: %r" % (op["step"], op["exc"])))
             return fails
+        if any(e[0] == "DETACHED" for e in op["log"]):
+            fails.append(("detached-handler-invoked", d, "a handler that had been detached was invoked: %r" % ([e for e in op["log"] if e[0] == "DETACHED"],)))
         pre, want, post = op["pre"], op["want"], op["post"]
         wlog = [e for e in op["log"] if e[0] == "W"]
         clog = [e for e in op["log"] if e[0] == "C"]
-        veto = any(style == "plain" and v for style, v in wcfg) and path != "assign"
-        nested = any(style == "plain-nested" for style, v in wcfg) and path != "assign"
+        veto = any(style == "plain" and v for style, v in wcfg) and path not in ("assign", "selected")
+        nested = any(style == "plain-nested" for style, v in wcfg) and path not in ("assign", "selected")
         requested = want
         if nested:
             # the handler vetoes the requested value and assigns another one: that nested assignment must behave
@@ -266,7 +307,7 @@ def judge(kind, path, wcfg, ccfg, rcfg, both, seq, obs, disabled=False):
         if kind == "switch-oneofmany" and want == "Off":
             want = "On"  # B is never selected here: the rule keeps the only selected switch On
         # --- Write handlers
-        if path == "assign":
+        if path in ("assign", "selected"):
             if wlog:
                 fails.append(("write-on-assignment", d, "Write handlers invoked on assignment: %r" % (wlog,)))
         else:
@@ -308,6 +349,8 @@ def judge(kind, path, wcfg, ccfg, rcfg, both, seq, obs, disabled=False):
         if disabled:
             if sets:
                 fails.append(("published-while-disabled", d, "the property is disabled, yet %r was published" % (sets,)))
+        elif path == "selected" and pre == post and not sets:
+            pass  # selected_values assigns only the switches whose state differs: nothing to publish for an unchanged one
         elif len(sets) != 1:
             fails.append(("publication-count", d, "%d update messages published for one write: %r" % (len(sets), sets)))
         else:
@@ -387,8 +430,13 @@ def run_shard(shard):
                         variants.append((True, False))
                     if len(seq) <= 2 and not both:
                         variants.append((False, True))  # the property is disabled
+                    if len(seq) <= 2:
+                        variants.append(("runtime", False))  # handlers subscribed at run time
                     for inherited, disabled in variants:
-                        obs = execute(kind, path, wcfg, ccfg, rcfg, both, seq, inherited=inherited, disabled=disabled)
+                        runtime = inherited == "runtime"
+                        if runtime:
+                            inherited = False
+                        obs = execute(kind, path, wcfg, ccfg, rcfg, both, seq, inherited=inherited, disabled=disabled, runtime=runtime)
                         res["executions"] += 1
                         res["transitions"] += len(obs["ops"])
                         res["counters"]["handler_calls"] = res["counters"].get("handler_calls", 0) + sum(len(o["log"]) for o in obs["ops"])
@@ -397,11 +445,13 @@ def run_shard(shard):
                                 disc += ",inherited-handlers"
                             if disabled:
                                 disc += ",disabled-property"
+                            if runtime:
+                                disc += ",runtime-attached"
                             key = (clause, disc)
                             if key in sig:
                                 sig[key]["count"] += 1
                             else:
-                                sig[key] = {"clause": clause, "disc": disc, "count": 1, "what": "W=%r C=%r R=%r both=%r seq=%r: %s" % (wcfg, ccfg, rcfg, both, seq, what), "replay": dict(kind=kind, path=path, wcfg=wcfg, ccfg=ccfg, rcfg=rcfg, both=both, seq=seq, inherited=inherited, disabled=disabled)}
+                                sig[key] = {"clause": clause, "disc": disc, "count": 1, "what": "W=%r C=%r R=%r both=%r seq=%r: %s" % (wcfg, ccfg, rcfg, both, seq, what), "replay": dict(kind=kind, path=path, wcfg=wcfg, ccfg=ccfg, rcfg=rcfg, both=both, seq=seq, inherited=inherited, disabled=disabled, runtime=runtime)}
     res["states"] = res["executions"]
     res["violations"] = list(sig.values())
     if kind == "text" and path == "client" and wi == 4:
@@ -433,5 +483,6 @@ def replay(rep):
     a = [rep["kind"], rep["path"], _t(rep["wcfg"]), _t(rep["ccfg"]), _t(rep["rcfg"]), rep["both"], _t(rep["seq"])]
     inh = rep.get("inherited", False)
     dis = rep.get("disabled", False)
-    obs = execute(*a, inherited=inh, disabled=dis)
-    return [{"clause": c, "disc": d + (",inherited-handlers" if inh else "") + (",disabled-property" if dis else ""), "what": w} for c, d, w in judge(*a, obs, dis)]
+    rt = rep.get("runtime", False)
+    obs = execute(*a, inherited=inh, disabled=dis, runtime=rt)
+    return [{"clause": c, "disc": d + (",inherited-handlers" if inh else "") + (",disabled-property" if dis else "") + (",runtime-attached" if rt else ""), "what": w} for c, d, w in judge(*a, obs, dis)]
